@@ -1085,6 +1085,18 @@ def hash_covers_every_field(ctx):
                     path = [x for x in s[2] if x != '*']
                     if len(path) == 1:
                         covered.add(str(path[0]))
+        # ... or feeds the hasher a whole-value encoding of the field (`state.write(&self.0.to_bytes())`)
+        for c in hb.calls(r'^std::hash::Hasher::write(_u8|_u16|_u32|_u64|_usize|_i64)?$'):
+            if len(c.args) < 2:
+                continue
+            sl = backward_slice(hb, [c.args[1]], follow_mutarg=False)
+            for e in sl.calls:
+                if e.is_(r'::(to_bytes|to_repr|as_bytes|to_be_bytes|to_le_bytes|serialize|to_vec|as_slice|to_encoded_point)$') and e.args:
+                    for s in lib.copy_chain_sources(hb, e.args[0], through_calls=tuple(lib.IDENTITY_CALLS)):
+                        if s[0] == 'param' and s[1] == 1:
+                            path = [x for x in s[2] if x != '*']
+                            if len(path) == 1:
+                                covered.add(str(path[0]))
         missing = [f for f in fields if f not in covered]
         ctx.check(not missing, adt, 'Hash feeds every field to the hasher',
                   'the Hash impl of %s does not hash field(s) %s whole: values that differ only there collide, and a hash set of such '
